@@ -27,31 +27,37 @@ variable {α : Type} (K : Ctx α)
 
 theorem lt_code (a b : List α) : Gen.opLt K.cmp K.ops a b = some (lexCmp K.key a b == .lt) := by
   simp only [Gen.opLt, Gen.opEq, Gen.opGt, Gen.opGe, Gen.opLe, Gen.opNe, Ctx.cmp, call_some, call_none,
+    call_equal3C_guard, call_equal3C_guard', ite_some_and, ite_some_or, ite_some_not_and, ite_some_not_or,
     lexLtC_key, equal4C_key, lexLt_eq_cmp, equal4_eq_cmp, equal3_guarded, apply_ite, ite_self]
   try simp only [lexCmp_swap K.key a b]
   try (cases lexCmp K.key a b <;> rfl)
 theorem eq_code (a b : List α) : Gen.opEq K.cmp K.ops a b = some (lexCmp K.key a b == .eq) := by
   simp only [Gen.opLt, Gen.opEq, Gen.opGt, Gen.opGe, Gen.opLe, Gen.opNe, Ctx.cmp, call_some, call_none,
+    call_equal3C_guard, call_equal3C_guard', ite_some_and, ite_some_or, ite_some_not_and, ite_some_not_or,
     lexLtC_key, equal4C_key, lexLt_eq_cmp, equal4_eq_cmp, equal3_guarded, apply_ite, ite_self]
   try simp only [lexCmp_swap K.key a b]
   try (cases lexCmp K.key a b <;> rfl)
 theorem gt_code (a b : List α) : Gen.opGt K.cmp K.ops a b = some (lexCmp K.key a b == .gt) := by
   simp only [Gen.opLt, Gen.opEq, Gen.opGt, Gen.opGe, Gen.opLe, Gen.opNe, Ctx.cmp, call_some, call_none,
+    call_equal3C_guard, call_equal3C_guard', ite_some_and, ite_some_or, ite_some_not_and, ite_some_not_or,
     lexLtC_key, equal4C_key, lexLt_eq_cmp, equal4_eq_cmp, equal3_guarded, apply_ite, ite_self]
   try simp only [lexCmp_swap K.key a b]
   try (cases lexCmp K.key a b <;> rfl)
 theorem ge_code (a b : List α) : Gen.opGe K.cmp K.ops a b = some (lexCmp K.key a b != .lt) := by
   simp only [Gen.opLt, Gen.opEq, Gen.opGt, Gen.opGe, Gen.opLe, Gen.opNe, Ctx.cmp, call_some, call_none,
+    call_equal3C_guard, call_equal3C_guard', ite_some_and, ite_some_or, ite_some_not_and, ite_some_not_or,
     lexLtC_key, equal4C_key, lexLt_eq_cmp, equal4_eq_cmp, equal3_guarded, apply_ite, ite_self]
   try simp only [lexCmp_swap K.key a b]
   try (cases lexCmp K.key a b <;> rfl)
 theorem le_code (a b : List α) : Gen.opLe K.cmp K.ops a b = some (lexCmp K.key a b != .gt) := by
   simp only [Gen.opLt, Gen.opEq, Gen.opGt, Gen.opGe, Gen.opLe, Gen.opNe, Ctx.cmp, call_some, call_none,
+    call_equal3C_guard, call_equal3C_guard', ite_some_and, ite_some_or, ite_some_not_and, ite_some_not_or,
     lexLtC_key, equal4C_key, lexLt_eq_cmp, equal4_eq_cmp, equal3_guarded, apply_ite, ite_self]
   try simp only [lexCmp_swap K.key a b]
   try (cases lexCmp K.key a b <;> rfl)
 theorem ne_code (a b : List α) : Gen.opNe K.cmp K.ops a b = some (lexCmp K.key a b != .eq) := by
   simp only [Gen.opLt, Gen.opEq, Gen.opGt, Gen.opGe, Gen.opLe, Gen.opNe, Ctx.cmp, call_some, call_none,
+    call_equal3C_guard, call_equal3C_guard', ite_some_and, ite_some_or, ite_some_not_and, ite_some_not_or,
     lexLtC_key, equal4C_key, lexLt_eq_cmp, equal4_eq_cmp, equal3_guarded, apply_ite, ite_self]
   try simp only [lexCmp_swap K.key a b]
   try (cases lexCmp K.key a b <;> rfl)
@@ -304,8 +310,8 @@ theorem mmGe_code (x y : MM α) :
     Gen.mmGe K.cmp K.ops x y =
       some (opDom K x.fitness y.fitness && decide (K.key y.accuracy ≤ K.key x.accuracy)) := by
   simp only [Gen.mmGe, dom_code, dominating_bridge, opDom_eq, call_some, Ctx.cmp, keyCmp_ge, keyCmp_le, keyCmp_lt, keyCmp_gt,
-    sge, sle, sgt, slt, apply_ite, ite_self]
-  try rfl
+    sge, sle, sgt, slt, ite_some_and, ite_some_or, ite_some_not_and, ite_some_not_or, apply_ite, ite_self]
+  try (cases dominating K.key x.fitness y.fitness <;> cases decide (K.key y.accuracy ≤ K.key x.accuracy) <;> rfl)
 
 theorem mmGe_spec (x y : MM α) :
     opMmGe K x y = (opDom K x.fitness y.fitness && decide (K.key y.accuracy ≤ K.key x.accuracy)) := by
